@@ -312,7 +312,9 @@ pub fn drive(a: &Args) -> i32 {
                 nrot_seen += 1;
                 post_rot = 1; // a rotation just happened: checkpoint (clock advanced), a few armed ops, clean restart
             }
-            let armed = if collide { since_open % 1000 >= 997 || since_open % 1000 <= 1 || i + 3 > nops }
+            // burst schedule: nothing is observed until the three rotations have happened (observing costs wall-clock
+            // time and would spread the rotations over several seconds); the last operations and a clean restart are
+            let armed = if collide { i + 3 > nops }
                         else if long { since_open >= 996 || post_rot > 0 || rng.gen_bool(0.004) } else { rng.gen_bool(0.6) };
             ctx.lock().expect("ctx").armed = armed;
             let kind = if long {
